@@ -2,6 +2,7 @@
 Monitor: (raised?, is_solved, objective) of the real models across option settings on one input, plus solve_statistics /
 solver trace showing whether an option changed the MILP at all. Oracle: agreement with the all-off baseline."""
 import collections, hashlib, itertools, copy
+import networkx as nx
 from fpverif import gen, ref, monitors as M, models, instances as I, workload as W
 import flowpaths as fp
 
@@ -267,6 +268,18 @@ def run_case(case):
             fingerprint = (tuple(t.get("ncols") for t in M.TRACE.trace), stats.get("edge_variables=0"), stats.get("edge_variables=1"), stats.get("edge_variables>=1"),
                            "greedy_solve_time" in stats, len(M.TRACE.trace))
             results.append({"s": s, "exc": res.get("exc"), "solved": bool(res.get("solved")), "obj": objective_of(cls, res), "tl": tl, "fp": fingerprint})
+            oo_obj = (res.get("kw") or {}).get("optimization_options")
+            if cls == "MinFlowDecomp" and s and isinstance(oo_obj, dict) and res.get("exc") is None and not tl:
+                # history: the caller keeps ONE options dict and uses it for a later, smaller instance (a single path: optimum 1 whatever the options)
+                P = nx.DiGraph(); f1 = 3 if inst["kw"].get("weight_type") == "int" else 3.0
+                P.add_edge("p0", "p1", flow=f1); P.add_edge("p1", "p2", flow=f1)
+                r2 = M.safe_call(fp.MinFlowDecomp, P, flow_attr="flow", weight_type=models.WT[inst["kw"].get("weight_type", "float")], optimization_options=oo_obj, solver_options=dict(SO))
+                s2 = M.safe_call(r2[1].solve) if r2[0] == "ok" else r2
+                obs["c05.same_options_object_reused"] += 1
+                on2 = "+".join(sorted(k for k, v in s.items() if v))[:120]
+                if s2[0] != "ok" or not r2[1].is_solved() or len(r2[1].get_solution()["paths"]) != 1:
+                    viol.append({"sig": f"C05/objective-depends-on-options/MinFlowDecomp/same-options-object-reused/{on2}",
+                                 "msg": f"single path p0->p1->p2 (optimum 1 path): {s2 if s2[0] != 'ok' else (r2[1].is_solved(), r2[1].get_solution() if r2[1].is_solved() else None)} with the options object of the previous model, now {oo_obj}; previous: {models.brief(inst)}"[:900]})
             if (tl and len(results) == 1) or sum(1 for r in results if r["tl"]) >= 2:
                 break      # heavy-tailed instance: no point in burning the budget on it
     finally:
